@@ -488,7 +488,12 @@ class FieldHeader:
 
     @property
     def disambiguated(self) -> str:
-        return self.raw + "_" if self.raw in utils.RESERVED_NAMES else self.raw
+        # Every segment of a dotted path names a field, and each of them may
+        # have been renamed to dodge a reserved word.
+        return ".".join(
+            seg + "_" if seg in utils.RESERVED_NAMES else seg
+            for seg in self.raw.split(".")
+        )
 
 
 @dataclasses.dataclass(frozen=True)
